@@ -2,12 +2,15 @@ package props
 
 import (
 	"fmt"
+	"os"
+	"path/filepath"
 	"sort"
 	"strings"
 
 	"verif/internal/explore"
 	"verif/internal/h"
 	"verif/internal/ir"
+	"verif/internal/maporder"
 )
 
 func init() { register("C19", "model_checking", checkC19) }
@@ -203,6 +206,12 @@ func judgeShow(prog *ir.Program) func(r *h.Result) []h.Violation {
 			bad("show-fails", "show reported errors on a well-formed program: %v", r.ShowDiags)
 			return vs
 		}
+		for name, out := range r.ShowOuts {
+			if out != r.ShowOut {
+				bad("show-order-dependent", "wire show prints something else when wire's internal maps are iterated in %s order:\n--- %s ---\n%s", name, name, clip(out, 1500))
+				return vs
+			}
+		}
 		sets, injectors, err := parseShow(r.ShowOut)
 		if err != nil {
 			bad("show-format", "%v", err)
@@ -299,6 +308,25 @@ func showSpecs(thorough bool) []specCase {
 			})
 		}
 	}
+	// two providers whose input sets overlap in one type and differ in another (and variants): the groups
+	// must be told apart by all of their members, not by size or by one member
+	for variant := 0; variant < 6; variant++ {
+		n := 6
+		// nodes 0..2 external inputs L, D, C; 3 = Users(L, D); 4 = Reports(L, C) / variants; 5 = Clock()
+		adjs := [][][]int{
+			{{}, {}, {}, {0, 1}, {0, 2}, {}},
+			{{}, {}, {}, {0, 1}, {1, 0}, {}},
+			{{}, {}, {}, {0, 1}, {2, 1}, {}},
+			{{}, {}, {}, {0, 1, 2}, {0, 2}, {3}},
+			{{}, {}, {}, {0}, {0, 1}, {3, 4}},
+			{{}, {}, {}, {2, 1}, {1, 2}, {0}},
+		}
+		g := &GraphSpec{N: n, Adj: adjs[variant], Nodes: make([]NodeSpec, n), Root: n - 1, InSet: true, ShowOnly: true}
+		for i := 0; i < 3; i++ {
+			g.Nodes[i].Kind = NExternal
+		}
+		out = append(out, specCase{fmt.Sprintf("C19/show/overlap/variant=%d", variant), g})
+	}
 	return out
 }
 
@@ -307,7 +335,7 @@ func checkC19(c *h.Check) {
 	c.R.AlsoCheck = true
 	// ---- Part A: check agrees with gen on the accepted and rejected programs of the other families ----
 	var cases []*h.Case
-	for _, fam := range []string{"C05", "C06", "C08", "C09", "C11", "C12", "C20"} {
+	for _, fam := range []string{"C05", "C06", "C08", "C09", "C11", "C12", "C13", "C20", "C01"} {
 		col := c.Collector(fam)
 		col.Tier = "quick"
 		props := Registry[fam]
@@ -317,6 +345,12 @@ func checkC19(c *h.Check) {
 		for _, cs := range col.Collected {
 			if !thorough && (fam == "C06" || fam == "C08") && (strings.Contains(cs.ID, "/n=3/") || strings.Contains(cs.ID, "/n=4/") || strings.Contains(cs.ID, "/n=5/")) {
 				continue // quick tier: the graph families of C06/C08 up to 2 nodes (thorough: all)
+			}
+			if fam == "C01" && !strings.Contains(cs.ID, "/access/") && !strings.Contains(cs.ID, "/aliased-import/") && !strings.Contains(cs.ID, "/layout/") {
+				continue // of C01 only the accessibility, aliased-import and layout families (the kind matrix is all-accepted)
+			}
+			if fam == "C11" && !thorough && (strings.Contains(cs.ID, "/depth=2") || strings.Contains(cs.ID, "/depth=3") || strings.Contains(cs.ID, "/order=1") || strings.Contains(cs.ID, "/order=2")) {
+				continue // quick tier: C11 at depth 0-1 and the default visiting order
 			}
 			ill := false
 			if prog, ok := cs.Meta.(*ir.Program); ok && prog != nil {
@@ -356,6 +390,21 @@ func checkC19(c *h.Check) {
 	// ---- Part B: show ----
 	c.R.AlsoCheck = false
 	c.R.AlsoShow = true
+	// show must not depend on the iteration order of wire's internal maps: besides the plain binary, the
+	// map-order-instrumented binary of C16 runs it under the reverse and the rotate policy
+	{
+		work := c.S.Dir("maporder")
+		inst := filepath.Join(c.S.Root, "wire-instrumented")
+		if _, err := maporder.Build(h.RepoDir(), work, inst, h.BaseEnv()); err != nil {
+			c.Internalf("%v", err)
+			return
+		}
+		for _, pol := range []string{"reverse", "rotate"} {
+			sp := filepath.Join(work, "sched-"+pol)
+			os.WriteFile(sp, []byte("wire * "+pol+"\nmain * "+pol+"\ntypeutil * "+pol+"\n"), 0o644)
+			c.R.ShowVariants = append(c.R.ShowVariants, h.ShowVariant{Name: pol, Wire: inst, Env: []string{"VERIF_SCHED=" + sp}})
+		}
+	}
 	var scases []*h.Case
 	for _, sc := range showSpecs(thorough) {
 		prog, _ := sc.spec.Build()
@@ -397,7 +446,7 @@ func checkC19(c *h.Check) {
 	c.Coverage["states"] = c.DistinctPrograms()
 	c.Coverage["transitions"] = 2*len(cases) + len(scases)
 	c.Coverage["traces_validated_against_impl"] = len(cases) + len(scases)
-	c.Coverage["rule"] = "A: the accepted and rejected programs of the C05, C06, C08, C09, C11, C12, C20 quick families (quick tier: the graph families of C06/C08 up to 2 nodes) (every rejection reason represented) plus accepted programs carrying an unused ill-formed top-level set of each kind: wire gen and wire check run on the same tree; check must fail exactly when gen fails for a package of the case or a top-level set is ill-formed, every error class gen reports must be reported by check, and check must not change the tree. B: all DAGs on <=4 nodes with node kinds {function, external input, struct pointer/value, field, pointer-to-field, binding, value} (deviation bound 2, thorough 2 on all), nesting depth 0-2, lib-package split, one named set per node (also wrapped in inline NewSet calls): wire show's stdout is parsed and compared with the model: every top-level set listed with the named sets it includes, every provided type grouped under exactly its transitive set of external input types, injectors listed. Distinct = distinct rendered source."
+	c.Coverage["rule"] = "A: the accepted and rejected programs of the C05, C06, C08, C09, C11, C12, C13, C20 quick families and of C01's accessibility/aliased-import/layout families (quick tier: the graph families of C06/C08 up to 2 nodes) (every rejection reason represented) plus accepted programs carrying an unused ill-formed top-level set of each kind: wire gen and wire check run on the same tree; check must fail exactly when gen fails for a package of the case or a top-level set is ill-formed, every error class gen reports must be reported by check, and check must not change the tree. B: all DAGs on <=4 nodes with node kinds {function, external input, struct pointer/value, field, pointer-to-field, binding, value} (deviation bound 2, thorough 2 on all), nesting depth 0-2, lib-package split, one named set per node (also wrapped in inline NewSet calls): wire show's stdout (plain binary, and the map-order-instrumented binary under the reverse and rotate policies, which must print the same) is parsed and compared with the model: every top-level set listed with the named sets it includes, every provided type grouped under exactly its transitive set of external input types, injectors listed. Distinct = distinct rendered source."
 	if len(cases) > 0 {
 		c.Samples = append(c.Samples, map[string]interface{}{"case": cases[len(cases)/2].ID, "gen_diags": results[len(cases)/2].Root().Diags, "check_diags": results[len(cases)/2].CheckDiags})
 	}
